@@ -243,6 +243,10 @@ def stepLine (st : St) (line : String) : St × List String :=
   | ["mtu", n] => match n.toNat? with
       | some m => ({ st with sz := ⟨m⟩ }, [])
       | none => (st, ["bad-op"])
+  | ["sizes", n] => match n.toNat? with
+      -- the constants `Packet.setMTU(n)` derives (the case's own MTU is left as it is)
+      | some m => (st, [s!"sizes maxSize={(⟨m⟩ : Sizes).maxSize} maxPayload={(⟨m⟩ : Sizes).maxPayload} maxFragment={(⟨m⟩ : Sizes).maxFragment}"])
+      | none => (st, ["bad-op"])
   | ["new", e, role] =>
       let kind := if role == "csc" then "csc" else if role.startsWith "scc" then "scc" else "base"
       (setEp st e ⟨kind, { isServer := role == "server" || role.startsWith "scc" }, [], 0⟩, [])
